@@ -547,7 +547,9 @@ class Sim:
         key = rel.rstrip("/")
         extra = [e for e in env.get("extra_entries", {}).get(key, []) if e not in names]
         names = sorted(names + extra)
-        spec = env.get("listdir", {}).get(key, "sorted")
+        # every project directory is enumerated in a planned order, not only the two the tool
+        # lists today (a refactor to glob/os.walk enumerates others)
+        spec = env.get("listdir", {}).get(key) or env.get("listdir_default", "sorted")
         if spec == "sorted":
             order = names
         elif spec == "reversed":
